@@ -15,15 +15,15 @@ HARNESSES = {
 }
 
 LS = 'harper-ls'
-ALPHA = "{LF, CR, 'a', U+4E2D, U+1F600, U+0301}"
+ALPHA = "{LF, CR, 'a', U+4E2D, U+1F600, U+0301, U+200B, U+010A}"
 
 
 def _pc(name, n, says, **kw):
     d = dict(crate=LS, attach='harper-ls/src/pos_conv.rs', file='pos_conv.rs', modpath='pos_conv::__verif_kani_pos_conv',
              harness=f'{name}_{n}', kind='bounded', bound=f'all texts of length 0..={n} over {ALPHA}, every index/span',
              function='pos_conv::' + kw.pop('function'), says=says, timeout=kw.pop('timeout', 1500),
-             # texts of length l over 6 symbols, times (l+1) indices
-             input_states=sum(6 ** l * (l + 1) for l in range(n + 1)))
+             # texts of length l over 8 symbols, times (l+1) indices
+             input_states=sum(8 ** l * (l + 1) for l in range(n + 1)))
     d.update(kw)
     return d
 
